@@ -67,6 +67,7 @@ impl World {
 	pub fn observe_emit(&mut self, from: usize, to: usize, m: &WireMsg) {
 		if let WireMsg::Add(a) = m {
 			let first = !self.oracle.adds_emitted.contains_key(&(a.payment_hash.0, from));
+			self.onion_oracle_on_add(from, to, a.payment_hash.0, a.amount_msat, a.cltv_expiry, first);
 			self.oracle.adds_emitted.entry((a.payment_hash.0, from)).or_default().push((a.amount_msat, a.cltv_expiry));
 			// C08-1: a node never forwards an HTLC that is about to expire (the sender of a payment
 			// may offer whatever it likes; retransmissions after a reconnect are not new decisions)
@@ -209,7 +210,7 @@ impl World {
 			},
 		};
 		self.out.bump("oracle:C02-3 forwarding admission arithmetic");
-		if p.policy_violating {
+		if p.policy_violating && p.underpaid_hop.map(|k| k == i).unwrap_or(true) {
 			self.violate(
 				"C02",
 				"C02-3 HTLC underpaying the advertised fee or CLTV delta was forwarded",
@@ -1300,6 +1301,9 @@ impl World {
 			if !p.accepted {
 				continue;
 			}
+			if self.onion.hash_altered.contains(&p.hash.0) {
+				continue;
+			}
 			if p.forgotten.is_some() {
 				// legally lost with the stale manager; it must never complete
 				if !p.ev.sent.is_empty() {
@@ -1327,7 +1331,7 @@ impl World {
 			let terminal = !p.ev.sent.is_empty() || !p.ev.failed.is_empty();
 			// profile `offchain` has no on-chain resolution: a payment routed over a channel that
 			// ended on chain (timeout close, or a violation already reported) is not judged here
-			if self.strict_offchain
+			if (self.strict_offchain || self.cfg.profile == "onionline")
 				&& p.paths.iter().any(|x| {
 					x.chans.iter().any(|c| self.chans[*c].tainted || self.chans[*c].force_closed_by.is_some())
 				}) {
